@@ -399,8 +399,21 @@ def autotool(selector, undo=False):
     if undo:
         rval = rval.wrap_functions(_untooler)
     else:
-        rval = rval.wrap_functions(_tooler)
-        verify(rval)
+        tooled = []
+
+        def _tool(fn, captures):
+            fn = _tooler(fn, captures)
+            tooled.append((fn, captures))
+            return fn
+
+        try:
+            rval = rval.wrap_functions(_tool)
+            verify(rval)
+        except Exception:
+            # The selector is refused: leave no function instrumented
+            for fn, captures in reversed(tooled):
+                _untooler(fn, captures)
+            raise
     return rval
 
 
